@@ -1687,7 +1687,7 @@ def inline_private(tu, fd, fname, names, offs, rounds=8):
       * the helper is not variadic / recursive, has no static locals and does not take the address of a label
       * its parameters are never written and never have their address taken; a parameter whose argument is `&v`
         (v a scalar local of the caller) is used only as `*p`, which becomes v; every other argument is free of side effects,
-        calls and memory reads, is not narrowed by the parameter type and does not name such a v
+        calls and memory reads, is not narrowed by the parameter type and names no variable whose address is taken
       * locals and labels are renamed apart; `return e;` becomes `result = e; goto <end of the body>;`.
     -> [(helper name, text of the replaced call)]"""
     done, serial = [], 0
@@ -1762,9 +1762,12 @@ def inline_private(tu, fd, fname, names, offs, rounds=8):
         refd = {v.get("referencedDecl", {}).get("id") for v in byref.values()}
         if len(refd) != len(byref):
             refuse("one local is handed over by address twice")
+        taken_addr = {strip(kids(x)[0]).get("referencedDecl", {}).get("id") for x in walk(tu.body(fd))
+                      if kind(x) == "UnaryOperator" and x.get("opcode") == "&" and kind(strip(kids(x)[0])) == "DeclRefExpr"}
         for k, a in enumerate(args):
-            if k not in byref and any(kind(x) == "DeclRefExpr" and x.get("referencedDecl", {}).get("id") in refd for x in walk(a)):
-                refuse("argument `%s` names a local that is also handed over by address" % ctext(a)[:40])
+            if k not in byref and any(kind(x) == "DeclRefExpr" and x.get("referencedDecl", {}).get("id") in refd | taken_addr
+                                      for x in walk(a)):
+                refuse("argument `%s` names a variable whose address is taken in the caller (the helper may change it)" % ctext(a)[:40])
         derefs = {}
         for x in walk(hbody):
             k = kind(x)
